@@ -7,7 +7,7 @@ ALL_BE = [0, 1, 2, 3, 4, 5]
 
 
 def oracle_units(chk, progs, backends, tag, proj=emit.KINDS_ALL, steps_fn=None, bfs_depth=6, max_confs=60,
-                 check_result=True, check_post=True, opts=None, timeout=120, unwind=6, conf_filter=None,
+                 check_result=True, check_post=True, check_flags=False, probe=None, opts=None, timeout=45, unwind=6, conf_filter=None,
                  bfs_steps_fn=None, extra_leaf=None, extra_pre=None, cbmc_extra=()):
     for pname in progs:
         my_backends = backends
@@ -28,7 +28,7 @@ def oracle_units(chk, progs, backends, tag, proj=emit.KINDS_ALL, steps_fn=None, 
             confs, edges = model.bfs(prog, bsteps, max_depth=bfs_depth, max_confs=max_confs)
             confs = [c for c in confs if (conf_filter(c[0]) if conf_filter else c[0].started)]
             cpp = emit.emit_cpp(prog, opts)
-            h, index = emit.emit_harness(prog, confs, steps, tag, proj=proj, check_result=check_result, check_post=check_post,
+            h, index = emit.emit_harness(prog, confs, steps, tag, proj=proj, check_result=check_result, check_post=check_post, check_flags=check_flags, probe=probe,
                                          extra_leaf=extra_leaf, extra_pre=extra_pre)
             chk.model_edges += sum(ix['paths'] for ix in index)
             for be in bes:
@@ -74,4 +74,45 @@ def C07(tier, seed):
     return chk
 
 
-PROPS = {f.__name__: f for f in (C01, C02, C06, C07)}
+STD = ('G', 'A', 'E', 'X', 'N')
+RT = [0, 2, 3, 4]      # run-time-speed configurations: back, back11, backmp11 flat_fold / function_pointer_array
+
+
+def C08(tier, seed):
+    chk = Check('C08', tier, seed)
+    be = [0, 2, 3] + ([4] if tier == 'thorough' else [])
+    oracle_units(chk, ['HIn', 'HIa', 'HIs'], be, 'C08', proj=('A', 'E', 'X', 'G'), check_result=False,
+                 bfs_depth=7, max_confs=40)
+    return chk
+
+
+def C09(tier, seed):
+    chk = Check('C09', tier, seed)
+    be = [0, 2, 3] + ([4] if tier == 'thorough' else [])
+    oracle_units(chk, ['X'], be, 'C09', proj=STD, bfs_depth=6, max_confs=40)
+    return chk
+
+
+def C10(tier, seed):
+    chk = Check('C10', tier, seed)
+    be = [0, 2, 3] + ([4] if tier == 'thorough' else [])
+    oracle_units(chk, ['A', 'Ai'], be, 'C10', proj=STD, bfs_depth=6)
+    chk.assumptions.append('C10: completion-guard sites of states active in the pre-state are assumed false in the step (the quantifier holds them fixed until re-entry); completion-guard consultations are logged in a separate class that is not compared (back re-tries them after every handled event)')
+    return chk
+
+
+def C11(tier, seed):
+    chk = Check('C11', tier, seed)
+    be = [0, 2, 3] + ([4] if tier == 'thorough' else [])
+    oracle_units(chk, ['T'], be, 'C11', proj=STD, check_result=False, bfs_depth=6)
+    return chk
+
+
+def C17(tier, seed):
+    chk = Check('C17', tier, seed)
+    be = [0, 2, 3] + ([4] if tier == 'thorough' else [])
+    oracle_units(chk, ['FL', 'T'], be, 'C17', proj=('A',), check_result=False, check_flags=True, bfs_depth=6)
+    return chk
+
+
+PROPS = {f.__name__: f for f in (C01, C02, C06, C07, C08, C09, C10, C11, C17)}
